@@ -1,7 +1,7 @@
 (* C09 — JSONPath syntax: every documented form parses as intended; printing is faithful. *)
 From Coq Require Import List NArith ZArith Bool.
 Import ListNotations.
-From JB Require Import Constants Bytes Num Value TreeOps Path PathParse PathParseProofs.
+From JB Require Import Constants Bytes Num Value TreeOps Path PathParse PathParseProofs PathSafe PathRoundtrip PathImage.
 Open Scope N_scope.
 
 (* any byte string: an error or a path, never a panic *)
@@ -23,3 +23,83 @@ Example C09_indices :
   = Ok [PRoot; PIndices [AIndex (IIndex 0); ASlice (ILast (-1)) (ILast 0)]].
 Proof. vm_compute. reflexivity. Qed.
 Print Assumptions C09_indices.
+
+(* printing an accepted path and parsing the printout gives back the same structure, for every path in the executable
+   class PathSafe.safe_path: every shape the parser produces ($ / un-rooted steps, .name :name ["name"] .* [*], index
+   lists with `to` and `last` offsets over the whole i32 range, filters, top-level predicates, comparisons and binary
+   arithmetic over path and literal operands, unary sign over a path operand, exists(...), and every nesting of && and ||),
+   whose plain names have no delimiter byte or backslash, whose quoted names and string literals have no quote or
+   backslash, whose integer literals are typed as the parser types them (u64 / negative i64), at depth < 200 (the fuel
+   of the printer model). Floats: under the per-float hypothesis that the printer's text is read back by the literal
+   reader (pf, the float printer, is a parameter). Excluded, with witnesses in PathRoundtrip.v: a digit-initial first
+   name of an un-rooted path (unrooted_digit_name_refuted), non-negative Int64 literals
+   (plus_signed_literal_reparsed_unsigned), names that need quotes (name_needing_quotes_refuted); trees the parser
+   never produces (logical operators over operands, comparisons over comparisons, empty index lists, `@` at the top
+   level or under a top-level predicate, `$`/`@` not at the head) are not in safe_path either. *)
+Theorem C09_print_then_parse_is_identity_floats : forall pf okf, (forall b, okf b = true -> path_float_reads_back pf b) ->
+  forall ps, safe_path okf ps = true -> parse_json_path (show_json_path pf ps) = Ok ps.
+Proof. exact path_roundtrip_floats. Qed.
+Print Assumptions C09_print_then_parse_is_identity_floats.
+
+Theorem C09_print_then_parse_is_identity : forall pf ps, safe_path no_floats ps = true ->
+  parse_json_path (show_json_path pf ps) = Ok ps.
+Proof. exact path_roundtrip. Qed.
+Print Assumptions C09_print_then_parse_is_identity.
+
+(* $.store.book[0, 2 to last, last-1]?((@.price < 10 && (@.a == "x y" || exists(@.b?($.c != null)))) || -5 >= $.d).title *)
+Definition C09_example_path : list path :=
+  [PRoot; PDotField [115; 116; 111; 114; 101]; PDotField [98; 111; 111; 107];
+   PIndices [AIndex (IIndex 0); ASlice (IIndex 2) (ILast 0); AIndex (ILast (-1))];
+   PFilter (EBin OOr
+              (EBin OAnd (EBin OLt (EPaths [PCurrent; PDotField [112; 114; 105; 99; 101]]) (EValue (PVNum (NUInt 10))))
+                         (EBin OOr (EBin OEq (EPaths [PCurrent; PDotField [97]]) (EValue (PVStr [120; 32; 121])))
+                                   (EExists [PCurrent; PDotField [98]; PFilter (EBin ONe (EPaths [PRoot; PDotField [99]]) (EValue PVNull))])))
+              (EBin OGe (EValue (PVNum (NInt (-5)))) (EPaths [PRoot; PDotField [100]])));
+   PDotField [116; 105; 116; 108; 101]].
+Example C09_roundtrip_example :
+  safe_path no_floats C09_example_path = true /\
+  show_json_path (fun _ => []) C09_example_path =
+    [36;46;115;116;111;114;101;46;98;111;111;107;91;48;44;32;50;32;116;111;32;108;97;115;116;44;32;108;97;115;116;45;49;93;
+     63;40;40;64;46;112;114;105;99;101;32;60;32;49;48;32;38;38;32;40;64;46;97;32;61;61;32;34;120;32;121;34;32;124;124;32;
+     101;120;105;115;116;115;40;64;46;98;63;40;36;46;99;32;33;61;32;110;117;108;108;41;41;41;41;32;124;124;32;45;53;32;62;61;32;36;46;100;41;
+     46;116;105;116;108;101] /\
+  parse_json_path (show_json_path (fun _ => []) C09_example_path) = Ok C09_example_path.
+Proof. vm_compute. repeat split; reflexivity. Qed.
+Print Assumptions C09_roundtrip_example.
+
+(* the same with a float literal, through the theorem: $?(@.a >= 1.5) with 1.5 printed as "1.5" *)
+Example C09_roundtrip_float_example :
+  let pf := fun _ : N => [49; 46; 53] in
+  let ps := [PRoot; PFilter (EBin OGe (EPaths [PCurrent; PDotField [97]]) (EValue (PVNum (NFloat 4609434218613702656))))] in
+  parse_json_path (show_json_path pf ps) = Ok ps.
+Proof.
+  intros pf ps. apply (C09_print_then_parse_is_identity_floats pf (fun b => b =? 4609434218613702656)).
+  - intros b Hb. apply N.eqb_eq in Hb. subst b. exact path_float_reads_back_example.
+  - vm_compute. reflexivity.
+Qed.
+Print Assumptions C09_roundtrip_float_example.
+
+(* the same in the words of the property: every ACCEPTED path whose names and literals need no quoting or escaping
+   (leaf_path: the conditions of safe_path without any condition on the tree shape) round-trips. This rests on
+   parse_image (every accepted input yields a tree of the parser's shape) and leaf_shape_safe. *)
+Theorem C09_parser_image : forall bs ps, parse_json_path bs = Ok ps -> shape_path ps.
+Proof. exact parse_image. Qed.
+Print Assumptions C09_parser_image.
+
+Theorem C09_accepted_path_round_trips : forall pf okf, (forall b, okf b = true -> path_float_reads_back pf b) ->
+  forall bs ps, parse_json_path bs = Ok ps -> leaf_path okf ps = true -> parse_json_path (show_json_path pf ps) = Ok ps.
+Proof. exact accepted_path_roundtrip. Qed.
+Print Assumptions C09_accepted_path_round_trips.
+
+(* a three-member chain a && b && c is parsed left-nested, printed as (a && b) && c, and comes back left-nested;
+   the input is $?(@.a == 1 && @.b <> "s" && exists($.c[last - 1 to LAST])) with the alternative spellings *)
+Example C09_accepted_chain_example :
+  let text := [36;63;40;64;46;97;32;61;61;32;49;32;38;38;32;64;46;98;32;60;62;32;34;115;34;32;38;38;32;
+               101;120;105;115;116;115;40;36;46;99;91;108;97;115;116;32;45;32;49;32;116;111;32;76;65;83;84;93;41;41] in
+  let ps := [PRoot; PFilter (EBin OAnd (EBin OAnd (EBin OEq (EPaths [PCurrent; PDotField [97]]) (EValue (PVNum (NUInt 1))))
+                                                  (EBin ONe (EPaths [PCurrent; PDotField [98]]) (EValue (PVStr [115]))))
+                                       (EExists [PRoot; PDotField [99]; PIndices [ASlice (ILast (-1)) (ILast 0)]]))] in
+  parse_json_path text = Ok ps /\ leaf_path no_floats ps = true /\
+  parse_json_path (show_json_path (fun _ => []) ps) = Ok ps.
+Proof. vm_compute. repeat split; reflexivity. Qed.
+Print Assumptions C09_accepted_chain_example.
